@@ -8,7 +8,7 @@ from . import kin
 from .common import ob_dict, run_jobs
 
 DT_DATA = ['float64', 'float32', 'int64']
-DT_OTHER = ['float64', 'float32']
+DT_OTHER = ['float64', 'float32', 'int64']
 
 
 def _ops():
@@ -328,6 +328,8 @@ def run(chk):
             jobs.append((kname, tuple(['float32'] + ['float64'] * (n - 1)), 'rad', [(('spectrum', 'tof'), (2, 2))] + ['spectrum'] * (n - 1)))
             jobs.append((kname, tuple(['float64'] * n), 'rad', ['tof'] + [0] * (n - 1)))
     run_jobs(chk, job_kernel, jobs)
+    from . import shimval
+    shimval.validate(chk, 'kinematics', 40 if chk.tier == 'quick' else 240)
     rjobs = [('float64', 'float64'), ('float32', 'float64')]
     if chk.tier == 'thorough':
         rjobs += [('float32', 'float32'), ('int64', 'float64'), ('float64', 'float32')]
